@@ -70,6 +70,19 @@ CLAIMED = {
              "the interpreter (C01), lli.",
         technique="Lean 4 proof (layout arithmetic, two-algorithm agreement) + end-to-end correspondence",
         design="§4 C10"),
+    "C12": dict(
+        text="Lean model of import expansion with theorems for every module set and every processing order of the import "
+             "pairs (the Rust iterates a HashSet): a module gains exactly the exports of the modules it imports directly — "
+             "`pub` items, flag cleared, functions as heads — never private or transitively imported items "
+             "(`export_exact`, `export_export`), and two processing orders give every module the same declarations up to "
+             "the order of the spliced block (`order_irrelevant`). Generated programs split at random over 2-4 files are run "
+             "in every file order and compared with the single-file program; removing a needed `pub` or import must be "
+             "rejected exactly when the model says a reference stops resolving; unrelated modules through one Compiler must "
+             "get the IR they get alone. Partial: 'behaves exactly like the single-file program' is exercised, not proved.",
+        note="Trusted: Lean kernel, transcription of expander.rs (checked through the visibility predictions), the interpreter "
+             "(C01), the partitioning renderer, lli. F5 (stale intrinsic cache across modules) was found here and fixed.",
+        technique="Lean 4 proof (order-independent refinement of the splice loop) + partition/permutation correspondence",
+        design="§4 C12"),
     "C14": dict(
         text="Lean reference lexer (alpha's lexer arm by arm) with theorems: every fixed spelling (punctuation, keywords, type "
              "names: complete table) and every integer literal spelling (decimal / 0x / 0b, any `_` separator placement, any "
